@@ -23,6 +23,8 @@ def judge(res, o, lean):
             return  # the library declines this form (e.g. complement with duplicate parameters in a path)
         res.fail("rule-form-raises:" + o["exc"].split(" at ")[0] + "@" + o["exc"].split(" at ")[1].split(":")[0] if " at " in o["exc"] else "rule-form-raises", inp, o["exc"])
         return
+    if "mutated" in o:
+        res.fail("rule-form-modifies-the-terms-it-was-given", inp, o["mutated"])
     if o["py"] != o["truth"]:
         res.fail("rule-form-miscounts", inp, {"python": o["py"], "truth": o["truth"]})
     if lean is None:
